@@ -66,3 +66,23 @@ def inverse(L):
         check(x[i] == 0x7E or y[i] == x[i], "decode(encode(x))[i] == x[i] unless 0x7E")
         check(x[i] == 0x7E or z[i] == x[i], "encode(decode(x))[i] == x[i] unless 0x7E")
     observe("dec(enc)", y)
+
+
+def after_earlier_calls(L0, L):
+    """no memory: the image of a string does not depend on the strings encoded / decoded before it"""
+    a = bytearray(sym_bytes("a", L0))
+    encode_string(a)
+    a2 = bytearray(sym_bytes("a2", L0))
+    decode_string(a2)
+    x = sym_bytes("x", L)
+    y = bytearray(x)
+    encode_string(y)
+    z = bytearray(x)
+    decode_string(z)
+    check(len(y) == L and len(z) == L, "after earlier calls: length preserved")
+    for i in range(L):
+        flippy = ((L % 2) == 1) != ((i % 2) == 1)
+        check(y[L - 1 - i] == ostr(x[i], flippy), "after earlier calls: encode image")
+        j = L - 1 - i
+        flippy2 = ((L % 2) == 1) != ((j % 2) == 1)
+        check(z[j] == ostr(x[i], flippy2), "after earlier calls: decode image")
